@@ -795,9 +795,23 @@ def sym_log(x):
     return Sym(LN(t))
 
 
+def _monomial_factors(m):
+    """factors of a product term (flattened)"""
+    out, stack = [], [m]
+    while stack:
+        f = stack.pop()
+        if z3.is_mul(f):
+            stack.extend(f.children())
+        else:
+            out.append(f)
+    return out
+
+
 def sym_log_product(x):
-    """log with the product rule applied structurally: for a monomial c * f1 * f2 * inv(g1) ... with positive factors,
-    log = log(c) + L(f1) + L(f2) - L(g1) ..., L uninterpreted on the atomic factors.  Other terms: L(term)."""
+    """log with the product rule applied structurally.  The argument is brought to sum-of-monomials form; reciprocal
+    variables (inv!k, standing for 1/base_k) and constant/atomic factors common to all monomials are pulled out:
+        log(c * f * inv(g) * P) = log(c) + L(f) - L(g) + L(P)
+    with L uninterpreted on normalised positive terms.  Sound for positive reals; positivity of each factor is decided."""
     if not isinstance(x, Sym):
         return math.log(x)
     e = E()
@@ -806,29 +820,59 @@ def sym_log_product(x):
         return math.log(float(t.as_fraction()))
     if bool(SymBool(t <= 0)):
         raise ValueError('math domain error')
-    factors = list(t.children()) if z3.is_mul(t) else [t]
-    total = z3.RealVal(0)
-    for f in factors:
-        if z3.is_mul(f):
-            factors.extend(f.children())
-            continue
+    monos = list(t.children()) if z3.is_add(t) else [t]
+    facs = [_monomial_factors(m) for m in monos]
+    common = []
+    for f in facs[0]:
         if is_num(f):
-            c = f.as_fraction()
-            if c <= 0:
-                return Sym(LN(t))
-            total = total + z3.RealVal(repr(math.log(float(c))))
             continue
+        if all(any(f.eq(g) for g in fl) for fl in facs[1:]):
+            common.append(f)
+    if len(monos) == 1:
+        rest = None
+        const = z3.RealVal(1)
+        for f in facs[0]:
+            if is_num(f):
+                const = z3.simplify(const * f)
+    else:
+        # remove one occurrence of every common factor from each monomial
+        new_monos = []
+        for fl in facs:
+            fl = list(fl)
+            for c in common:
+                for k, g in enumerate(fl):
+                    if c.eq(g):
+                        del fl[k]
+                        break
+            prod = z3.RealVal(1)
+            for g in fl:
+                prod = prod * g
+            new_monos.append(prod)
+        rest = z3.simplify(z3.Sum(new_monos), som=True)
+        const = z3.RealVal(1)
+    total = z3.RealVal(0)
+    if not z3.simplify(const).eq(z3.RealVal(1)):
+        c = const.as_fraction()
+        if c <= 0:
+            return Sym(LN(t))
+        total = total + z3.RealVal(repr(math.log(float(c))))
+    for f in common:
         if z3.is_app_of(f, z3.Z3_OP_POWER):
             return Sym(LN(t))
         nm = f.decl().name() if z3.is_const(f) else None
         inv_of = e.memo.get('invof:' + nm) if nm else None
-        base, sgn = (inv_of, -1) if inv_of is not None else (f, 1)
-        if not z3.is_const(base) and not z3.is_app_of(base, z3.Z3_OP_UNINTERPRETED):
-            # non-atomic factor (a sum): keep it as one argument of L
-            pass
+        if inv_of is not None:
+            base, sgn = z3.simplify(inv_of, som=True), -1
+        else:
+            base, sgn = f, 1
         if bool(SymBool(base <= 0)):
             return Sym(LN(t))
         total = total + sgn * LN(base)
+    if rest is not None:
+        if is_num(rest):
+            total = total + z3.RealVal(repr(math.log(float(rest.as_fraction()))))
+        else:
+            total = total + LN(rest)
     return Sym(z3.simplify(total))
 
 
